@@ -97,6 +97,12 @@ Theorem c19_conversation_wire_is_whole_frames :
     conv_ok packet is_keepalive pong done (aconv packet parse ver_of is_keepalive version m verify pong fuel c s rs ws cancels wsched acc).
 Proof. exact aconv_ok. Qed.
 
+(* the connection structs of the source have exactly the fields the models carry as state (regenerated field
+   names): receive buffer + verification flag; the tokio one also the outstanding reply and its packet *)
+Theorem c19_model_state_is_the_struct : state_tied = true.
+Proof. vm_compute. reflexivity. Qed.
+
+
 (* non-vacuity: the future is dropped while the keep-alive reply is half written and again while waiting for data *)
 Example c19_example :
   run_async Compressed false [([3;0;0], (0, CKeep)); ([3;1;2], (1, COther))]
